@@ -5,7 +5,7 @@ CONSTANTS
   AgentHost = 9
   FixMixedSum = TRUE
   FixEmptyHost = TRUE
-  Shapes <- MCShapes
+  Shapes <- MCShapesSmall
   TopKeys = {1, 2}
   SFs = {1, 2, 4}
   Percs = {FALSE, TRUE}
